@@ -48,9 +48,15 @@ Theorem C17_median_member ps i :
   (count_lt (nth i ps 0%Q) ps <= length ps / 2 < count_le (nth i ps 0%Q) ps)%nat.
 Proof. exact (rank_ok_spec ps i). Qed.
 
-(* pack followed by unpack reproduces names, units and values -- checked per run on the model (vm_compute)
-   and on the implementation; the general statement for all tables is NOT proved here (partial). *)
-Example C17_unpack_pack_partial :
+(* pack followed by unpack reproduces names, units, values and metadata of every well-formed table (distinct column names,
+   columns of equal length); unpack followed by pack reproduces every rectangular matrix *)
+Theorem C17_unpack_pack t : wf_tab t -> unpack (header t) (st_meta t) (pack (col_names t) t) = t.
+Proof. exact (unpack_pack t). Qed.
+Theorem C17_pack_unpack hdr m rows :
+  hdr <> [] -> NoDup (map fst hdr) -> (forall r, In r rows -> length r = length hdr) ->
+  pack (map fst hdr) (unpack hdr m rows) = rows.
+Proof. exact (pack_unpack_rows hdr m rows). Qed.
+Example C17_unpack_pack_ex :
   let t := mk_stab [mk_scol 0 1 [(1#2); (3#4)]; mk_scol 3 0 [(5#1); (6#1)]; mk_scol 2 2 [(7#1); (8#1)]] (mk_smeta (Some (55000#1)) 1 0) in
   stab_eqb (unpack [(0, 1); (3, 0); (2, 2)]%nat (st_meta t) (pack [0; 3; 2]%nat t)) t = true.
 Proof. vm_compute. reflexivity. Qed.
@@ -67,3 +73,5 @@ Print Assumptions C17_select_meta.
 Print Assumptions C17_select_header.
 Print Assumptions C17_select_values.
 Print Assumptions C17_median_member.
+Print Assumptions C17_unpack_pack.
+Print Assumptions C17_pack_unpack.
